@@ -77,3 +77,36 @@ Proof.
   intros c h Ho H. unfold history_ok, txn_ok. eapply Forall_impl; [|exact H].
   intros t Ht. eapply Forall_impl; [|exact Ht]. intros o Hw. apply validate_valid; auto.
 Qed.
+
+(* Delegations.get_delegation / is_glue on a committed version *)
+Theorem get_delegation_eq_spec_main : forall c h q,
+    history_ok c h ->
+    let z := exec c h in
+    match get_delegation (z_delegs z) q with
+    | (Some cut, sub) =>
+        In (ekey cut) (map ekey (delegations_of c (z_nodes z))) /\ is_subdomain q cut = true /\
+        sub = strictly_beneath q cut
+    | (None, sub) =>
+        sub = false /\ forall d0, In d0 (delegations_of c (z_nodes z)) -> is_subdomain q d0 = false
+    end /\
+    deleg_is_glue (z_delegs z) q = glue_name c (z_nodes z) q.
+Proof.
+  intros c h q Hh z. pose proof (exec_inv c h Hh) as HI. fold z in HI. unfold ZInv in HI.
+  pose proof (inv_sd c _ HI) as Sd. cbn [v_delegs] in Sd. split.
+  - destruct (get_delegation (z_delegs z) q) as [[cut|] sub] eqn:G.
+    + apply gd_sound in G as (Hin & Hb & Hs); auto. split; [|split; auto].
+      * apply delegations_of_in. apply (inv_d c _ HI). apply (in_keys _ cut tt); auto.
+      * apply is_subdomain_below; auto.
+    + assert (Hnone : forall d0, In d0 (delegations_of c (z_nodes z)) -> is_subdomain q d0 = false).
+      { intros d0 Hd0. apply not_true_is_false. intros Hs.
+        assert (Hk : In (ekey d0) (keys (z_delegs z))).
+        { apply (inv_d c _ HI). cbn [v_nodes]. apply delegations_of_in. apply in_map. auto. }
+        apply keys_in in Hk as (x & [] & Hinx & Ex).
+        destruct (gd_complete (z_delegs z) q x Sd (inv_antichain c _ HI) Hinx) as (x' & _ & G').
+        { rewrite Ex. apply is_subdomain_below. auto. }
+        rewrite G' in G. discriminate. }
+      split; auto. unfold get_delegation in G.
+      destruct (c_prev (c_seek (z_delegs z) q)) as [[[g u]|] cur]; [|inversion G; auto].
+      destruct ((reln q g =? rSUB) || (reln q g =? rEQUAL)); inversion G; auto.
+  - rewrite glue_name_occluded. apply (inv_is_glue c _ HI).
+Qed.
